@@ -13,6 +13,8 @@ type propFunc func(w *World, r *Report)
 
 var properties = map[string]propFunc{}
 
+var proverProps = map[string]bool{"C02": true, "C05": true}
+
 func main() {
 	prop := flag.String("property", "", "property id (C01..C20)")
 	tier := flag.String("tier", "quick", "quick|thorough")
@@ -58,8 +60,19 @@ func main() {
 		cha  bool
 	}
 	variants := []variant{{"", false}}
-	if *tier == "thorough" {
-		variants = append(variants, variant{"", true}, variant{"386", false})
+	// The prover-based properties analyse 64-bit arithmetic (assumption A1)
+	// and identify memory loads through callee write sets; the coarser CHA
+	// graph only loses identifications and GOARCH=386 would change the
+	// meaning of int.  Their thorough tier goes deeper in other ways (wider
+	// entry set, re-encoding panics, mutant self-test).
+	if *tier == "thorough" && !proverProps[*prop] {
+		// (a CHA call graph was tried as a second variant: it only widens
+		// reachability with infeasible edges — e.g. the lookup DSL parser
+		// becomes "reachable" from Font.Write — and produced false alarms)
+		// (GOARCH=386 was tried as well: the repository does not type-check
+		// there — cmap.go compares len(data) with math.MaxUint32 — so there
+		// is nothing to analyse.)
+		_ = variant{"386", false}
 	}
 	for _, v := range variants {
 		w, err := Load(*repo, v.arch, v.cha)
